@@ -579,8 +579,15 @@ LocalExit:
             }
             else if (yychar_ == ':') {
                 // Digraph: 6.4.6-3.
-                tk->syntaxK_ = SyntaxKind::HashToken;
                 yyinput();
+                if (yychar_ == '%' && yytext_[1] == ':') {
+                    tk->syntaxK_ = SyntaxKind::HashHashToken;
+                    yyinput();
+                    yyinput();
+                }
+                else {
+                    tk->syntaxK_ = SyntaxKind::HashToken;
+                }
             }
             else {
                 tk->syntaxK_ = SyntaxKind::PercentToken;
